@@ -183,7 +183,7 @@ Proof.
       * destruct (lookup_var x (m_scopes m1)) as [c|]; [|unfold rt_err, fail_here, unexpected_at; destruct (stmt_at code (m_pc m1)); exact I].
         eapply keeps_bind; [apply (eval_indexes_keeps (eval code f) nocall Hev); exact Q1|]. intros [path m2] _. simpl.
         unfold here. destruct (stmt_at code (m_pc m2)) eqn:Est2; cbn [bind]; [|exact I].
-        destruct (lookup_var x (m_scopes m2)) as [c2|]; [|unfold rt_err, fail_here, unexpected_at; rewrite Est2; exact I].
+        destruct (lookup_var x (m_scopes m2)) as [c2|]; [|exact I].
         eapply (keeps_bind _ (fun x => x)); [apply assign_path_keeps|]. intros m3 _. simpl. reflexivity.
   - eapply keeps_bind; [apply Hev; exact Hq|]. intros [v m1] _. simpl. reflexivity.
   - reflexivity.
